@@ -1,4 +1,5 @@
 import Restic.Model.Retry
+import Restic.Gen.Source
 /-!
 # C35 — Retried backend operations return correct results or fail
 
@@ -713,6 +714,12 @@ theorem step_specOK (cfg : Cfg) (uni : Nat) (stop : Nat → Bool) (ctx : Bool) (
   unfold specOK specViolation
   rw [step_clause1, step_clause2, step_clause3, step_clause4, step_clause5]
   rfl
+
+/-! ## tie T1: the retry bound of the deprecated mode -/
+
+/-- the model's `maxRetries` is the literal in `backoff.WithMaxRetries(b, 10)` of the current
+    `Backend.retry` (regenerated `callargs` fact) -/
+theorem gen_max_retries : maxRetriesOfCalls Restic.Gen.retry_callargs = some maxRetries := by decide
 
 /-! ## non-vacuity: the hypotheses are satisfiable by non-trivial runs (examples, not theorems) -/
 
